@@ -245,7 +245,8 @@ def splitCandidates (a : Adapt α) (rat : Nat → Nat → α) (edges : List (Nat
 def nodeMinRatio (a : Adapt α) (rat : Nat → Nat → α) (edges : List (Nat × Nat)) (node : Nat) : α :=
   foldMin (lit2 *. a.collapseRatio) ((edges.filter fun e => e.1 = node || e.2 = node).map fun e => rat e.1 e.2)
 
-/-- `ratio[node] < collapse_ratio` -/
+/-- `ratio[node] < collapse_ratio` (ref_collapse.c:125; the loop re-tests `ratio[order[i]] > collapse_ratio → continue`
+    at line 137, which also skips the entries reset to `2*collapse_ratio` after a collapse next to them) -/
 def collapseSelected (a : Adapt α) (m : α) : Bool := m <. a.collapseRatio
 
 def collapseCandidates (a : Adapt α) (rat : Nat → Nat → α) (edges : List (Nat × Nat)) (nodes : List Nat) :
